@@ -562,9 +562,13 @@ class FillRequest(object):
                 else:
                     # at least one event present
                     # this would give bad performance for bufsize=1
-                    for val in el_run(chain([val],
-                                            islice(flow, bufsize-1))):
+                    block = chain([val], islice(flow, bufsize-1))
+                    for val in el_run(block):
                         yield val
+                    # el may stop reading early (like Slice):
+                    # the rest of this block is not for the next one
+                    for _ in block:
+                        pass
                     # usually Run elements have no reset, but...
                     # we call reset here, because we don't call request
                     # (which usually calls reset itself)
@@ -576,18 +580,22 @@ class FillRequest(object):
         # that *bufsize* values were encountered
 
         class slice_iterated_with_count():
+            """Iterator over at most *size* values of *seq*,
+            which counts the values it has given out."""
 
             def __init__(self, size, seq):
                 self.count = 0
-                self._size = size
-                self._seq = seq
+                self._iter = islice(seq, size)
 
             def __iter__(self):
-                count = 0
-                for val in islice(self._seq, self._size):
-                    count += 1
-                    yield val
-                self.count = count
+                return self
+
+            def __next__(self):
+                val = next(self._iter)
+                self.count += 1
+                return val
+
+            next = __next__
 
         if self._buffer_input:
             while True:
@@ -606,10 +614,13 @@ class FillRequest(object):
                     self._el_reset()
         else:
             # buffer output
-            # slice_ can be iterated multiple times
-            slice_ = slice_iterated_with_count(bufsize, flow)
             while True:
+                slice_ = slice_iterated_with_count(bufsize, flow)
                 results = list(el_run(slice_))
+                # el may stop reading early (like Slice):
+                # skip (and count) the rest of this block
+                for _ in slice_:
+                    pass
                 if slice_.count < bufsize:
                     return
                 for val in results:
